@@ -647,7 +647,13 @@ impl<T: Transport, E: UtpEnvironment> Dispatcher<T, E> {
             trace!(?remote, connection_id=?syn.header.connection_id, "duplicate SYN, ignoring");
             return Ok(());
         }
-        while let Some(acceptor) = self.accept_queue.try_next_acceptor() {
+        // Requests that are already waiting go first: an acceptor that showed up since the last
+        // cleanup must not be handed this SYN ahead of them.
+        self.cleanup_accept_queue()?;
+        while self.accept_queue.syns.is_empty() {
+            let Some(acceptor) = self.accept_queue.try_next_acceptor() else {
+                break;
+            };
             match self.match_syn_with_accept(syn, acceptor) {
                 MatchSynWithAccept::Matched => return Ok(()),
                 MatchSynWithAccept::SynInvalid(sender) => {
